@@ -683,7 +683,7 @@ func TestP1Isolation(t *testing.T) {
 	rec := ev.New("C18", "isolation")
 	defer rec.Finish(t)
 	firstRun = runWorkload()
-	rec.Rule(fmt.Sprintf("histories: a probe workload (%d items: 16 programs touching every operator and the error paths, ReadCMap, type1.Read of a PFB font with seac, Font.Write in 4 formats + re-read, WritePDF, Metrics.Write + re-read, all query methods, 130 name look-ups) is run; then 1-5 hostile programs drawn from %d pieces and their concatenations (overwriting or re-defining entries of systemdict, userdict, errordict, every StandardEncoding slot, the CIDInit procedure set, FontDirectory and the resource categories, replacing operators used by the font and CMap readers, or failing half-way inside begin, inside a CMap block, inside an eexec section (malformed, or well-formed with a program that errors or stops), inside nested procedures) each run in an instance of its own; in half of the histories followed by 1-4 damaged files from the C01 generators (Type 1 fonts with random or cut charstrings and damaged composites, CMap, AFM and PFB files) handed to the readers, each followed at once by reads of well-formed fonts (incl. one holding the glyph names the damaged fonts refer to), a CMap, an AFM file and a PFB stream whose results must not change; after each of them the very next instance runs a small program that must give its known result; then a fresh instance is compared slot by slot with a pristine one and the workload is run again. Oracle: results before == results after == golden digest computed in a fresh process that never ran a hostile program. Non-trivial: >= 1 hostile program changed a shared-looking object in its own instance or >= 1 damaged input was rejected; distinct by history.", len(workload), len(hostilePieces)))
+	rec.Rule(fmt.Sprintf("histories: a probe workload (%d items: 16 programs touching every operator and the error paths, ReadCMap, type1.Read of a PFB font with seac, Font.Write in 4 formats + re-read, WritePDF, Metrics.Write + re-read, all query methods, 130 name look-ups) is run; then 1-5 hostile programs drawn from %d pieces and their concatenations (overwriting or re-defining entries of systemdict, userdict, errordict, every StandardEncoding slot, the CIDInit procedure set, FontDirectory and the resource categories, replacing operators used by the font and CMap readers, or failing half-way inside begin, inside a CMap block, inside an eexec section (malformed, or well-formed with a program that errors or stops), inside nested procedures) each run in an instance of its own; in half of the histories followed by 1-4 damaged files from the C01 generators (Type 1 fonts with random or cut charstrings and damaged composites, CMap, AFM and PFB files, and well-formed CMap files that end by filling userdict with 5-2000 definitions incl. new meanings for operators) handed to the readers, each followed at once by reads of well-formed fonts (incl. one holding the glyph names the damaged fonts refer to), a CMap, an AFM file and a PFB stream whose results must not change; after each of them the very next instance runs a small program that must give its known result; then a fresh instance is compared slot by slot with a pristine one and the workload is run again. Oracle: results before == results after == golden digest computed in a fresh process that never ran a hostile program. Non-trivial: >= 1 hostile program changed a shared-looking object in its own instance or >= 1 damaged input was rejected; distinct by history.", len(workload), len(hostilePieces)))
 	ev.SetupRapid(1200, 64000)
 	rapid.Check(t, func(t *rapid.T) {
 		n := rapid.IntRange(1, 5).Draw(t, "nprograms")
@@ -698,7 +698,26 @@ func TestP1Isolation(t *testing.T) {
 		}
 		if rapid.Bool().Draw(t, "withinputs") {
 			for i := rapid.IntRange(1, 4).Draw(t, "ninputs"); i > 0; i-- {
-				switch rapid.IntRange(0, 6).Draw(t, "inputkind") {
+				switch rapid.IntRange(0, 7).Draw(t, "inputkind") {
+				case 7:
+					// a well-formed CMap file that is read successfully and
+					// then, behind its last `end`, fills userdict with 5-2000
+					// definitions, among them new meanings for the operators
+					// CMap files use
+					var sb strings.Builder
+					sb.Write(cmapFile)
+					n := rapid.SampledFrom([]int{5, 100, 257, 300, 2000}).Draw(t, "pollution")
+					for i := 0; i < n; i++ {
+						fmt.Fprintf(&sb, "/pollute%d %d def\n", i, i)
+					}
+					sb.WriteString(rapid.SampledFrom([]string{
+						"/def {pop pop} def\n",
+						"/dict {pop 7} def /begin {pop} def\n",
+						"/findresource {pop pop 7} def\n",
+						"/begincmap {stop} def /endcmap {stop} def /defineresource {pop pop pop} def\n",
+						"/currentdict 7 def /end {} def\n",
+					}).Draw(t, "redefinitions"))
+					c.Inputs = append(c.Inputs, hostileInput{"cmap", []byte(sb.String())})
 				case 0:
 					c.Inputs = append(c.Inputs, hostileInput{"cmap", hostile.CMap(t)})
 				case 1:
